@@ -1700,6 +1700,15 @@ where
                         custom_protocol_response_ok(&mut self.write, "SET SHARDING KEY").await?;
                     }
 
+                    // SET SHARDING KEY TO a number that is not a bigint
+                    (Command::InvalidShardingKey, value) => {
+                        error_response(
+                            &mut self.write,
+                            &format!("sharding key {} is out of range for bigint", value),
+                        )
+                        .await?;
+                    }
+
                     // SET SERVER ROLE TO
                     (Command::SetServerRole, _) => {
                         custom_protocol_response_ok(&mut self.write, "SET SERVER ROLE").await?;
